@@ -1,7 +1,332 @@
-(* C09 placeholder while the proofs are rebuilt *)
+(* C09  Routes are propagated only where BGP allows, with correctly rewritten
+   attributes.  Statements only: each theorem is closed by [exact], pinned by
+   [Check] and followed by [Print Assumptions].
+
+   [advertised x pol emax raddr cid c e d pid nh out s]: process_nlri_change (the
+   model of the working tree, Model/Export.v) run for a receiver with export
+   context x, export policy pol, send-max emax, address raddr and cluster id cid
+   on change c with export map e hands Reach(d, pid, nh, out) of source s to the
+   sink.  All statements are for every context, policy, change and export map. *)
 From Coq Require Import List NArith Bool.
-From RB Require Import Base.Val Model.Export Spec.ExportSpec.
-Theorem trivial_placeholder : True.
-Proof. exact I. Qed.
-Check trivial_placeholder : True.
-Print Assumptions trivial_placeholder.
+From RB Require Import Base.Val Model.Export Spec.ExportSpec Proofs.Export.
+Import ListNotations.
+Open Scope N_scope.
+
+(* (1) A route is never advertised back to the peer it was learned from (the peer is
+   identified by its address, as in the code and in Source). *)
+Theorem no_echo :
+  forall x pol emax raddr cid c e d pid nh out s,
+    advertised x pol emax raddr cid c e d pid nh out s -> ~ learned_from s raddr.
+Proof. exact C09_no_echo. Qed.
+Check no_echo :
+  forall x pol emax raddr cid c e d pid nh out s,
+    advertised x pol emax raddr cid c e d pid nh out s -> ~ learned_from s raddr.
+Print Assumptions no_echo.
+
+(* (2) Never from one non-client iBGP peer to another (any export policy, any
+   cluster-id configuration). *)
+Theorem no_ibgp_nonclient_to_nonclient :
+  forall x pol emax raddr cid c e d pid nh out s,
+    advertised x pol emax raddr cid c e d pid nh out s ->
+    x_role x = Ibgp -> ~ nonclient_ibgp_source s.
+Proof. exact C09_no_ibgp_nonclient_to_nonclient. Qed.
+Check no_ibgp_nonclient_to_nonclient :
+  forall x pol emax raddr cid c e d pid nh out s,
+    advertised x pol emax raddr cid c e d pid nh out s ->
+    x_role x = Ibgp -> ~ nonclient_ibgp_source s.
+Print Assumptions no_ibgp_nonclient_to_nonclient.
+
+(* (3) Never across the route-server / non-route-server boundary. *)
+Theorem no_rs_boundary_crossing :
+  forall x pol emax raddr cid c e d pid nh out s,
+    advertised x pol emax raddr cid c e d pid nh out s -> ~ crosses_rs_boundary s (x_role x).
+Proof. exact C09_no_rs_boundary_crossing. Qed.
+Check no_rs_boundary_crossing :
+  forall x pol emax raddr cid c e d pid nh out s,
+    advertised x pol emax raddr cid c e d pid nh out s -> ~ crosses_rs_boundary s (x_role x).
+Print Assumptions no_rs_boundary_crossing.
+
+(* (4) A route whose AS_PATH contains the local AS or the confederation id, whose
+   ORIGINATOR_ID is the local router id, or whose CLUSTER_LIST contains the
+   session's cluster id is never handed to insert_route (rx_reach = the
+   is_as_loop filter of run_select followed by rx_update). *)
+Theorem loops_never_installed :
+  forall x rid cid attrs,
+    looped x rid cid attrs -> forall installed, rx_reach x rid cid attrs <> Ok (Some installed).
+Proof. exact C09_loops_never_installed. Qed.
+Check loops_never_installed :
+  forall x rid cid attrs,
+    looped x rid cid attrs -> forall installed, rx_reach x rid cid attrs <> Ok (Some installed).
+Print Assumptions loops_never_installed.
+
+(* (5) To eBGP peers (export policy without set-actions): the local AS — the
+   confederation id if configured — is prepended exactly once to the path
+   without its confederation segments, in an AS_SEQUENCE; LOCAL_PREF,
+   ORIGINATOR_ID, CLUSTER_LIST, AIGP and MED are absent; the next hop is self
+   (except for a Flowspec route without next hop, and for a locally injected
+   route whose API-supplied next hop is explicit: export_nexthop keeps that one). *)
+Theorem ebgp_rewrite :
+  forall x pol emax raddr cid c e d pid nh out s,
+    wf_ctx x -> x_role x = Ebgp -> filter_only pol ->
+    (forall p, In p (c_paths c) -> decodable (p_attrs p)) ->
+    advertised x pol emax raddr cid c e d pid nh out s ->
+    exists p, In p (c_paths c) /\ s = p_src p
+      /\ (forall pin, path_of (p_attrs p) pin -> ebgp_path_ok x pin out)
+      /\ ebgp_strips_ok out
+      /\ absent MED out
+      /\ ((p_nh p = None -> is_flowspec (c_family c) = false) ->
+          (forall n, p_nh p = Some n -> src_is_local s = true -> ip_unspecified (nh_addr n) = true) ->
+          nh = Some (self_nexthop x)).
+Proof. exact C09_ebgp_rewrite. Qed.
+Check ebgp_rewrite :
+  forall x pol emax raddr cid c e d pid nh out s,
+    wf_ctx x -> x_role x = Ebgp -> filter_only pol ->
+    (forall p, In p (c_paths c) -> decodable (p_attrs p)) ->
+    advertised x pol emax raddr cid c e d pid nh out s ->
+    exists p, In p (c_paths c) /\ s = p_src p
+      /\ (forall pin, path_of (p_attrs p) pin -> ebgp_path_ok x pin out)
+      /\ ebgp_strips_ok out
+      /\ absent MED out
+      /\ ((p_nh p = None -> is_flowspec (c_family c) = false) ->
+          (forall n, p_nh p = Some n -> src_is_local s = true -> ip_unspecified (nh_addr n) = true) ->
+          nh = Some (self_nexthop x)).
+Print Assumptions ebgp_rewrite.
+
+(* (5') With ANY export policy: the iBGP-only attributes never reach an eBGP peer;
+   the policy is applied to attributes whose received MED has been removed and
+   whose next hop is already self, and what is sent is the next hop the policy
+   returned (so set-med / set-nexthop actions survive). *)
+Theorem ebgp_any_policy :
+  forall x pol emax raddr cid c e d pid nh out s,
+    x_role x = Ebgp -> advertised x pol emax raddr cid c e d pid nh out s ->
+    ebgp_strips_ok out
+    /\ exists p a0 nh0 a1, In p (c_paths c) /\ s = p_src p
+         /\ pre_policy_defaults x (p_attrs p) (p_nh p) (c_family c) (src_is_local s) = (a0, nh0)
+         /\ absent MED a0
+         /\ ((p_nh p = None -> is_flowspec (c_family c) = false) ->
+             (forall n, p_nh p = Some n -> src_is_local s = true -> ip_unspecified (nh_addr n) = true) ->
+             nh0 = Some (self_nexthop x))
+         /\ pol s a0 nh0 (p_nh p) = Some (a1, nh).
+Proof. exact C09_ebgp_any_policy. Qed.
+Check ebgp_any_policy :
+  forall x pol emax raddr cid c e d pid nh out s,
+    x_role x = Ebgp -> advertised x pol emax raddr cid c e d pid nh out s ->
+    ebgp_strips_ok out
+    /\ exists p a0 nh0 a1, In p (c_paths c) /\ s = p_src p
+         /\ pre_policy_defaults x (p_attrs p) (p_nh p) (c_family c) (src_is_local s) = (a0, nh0)
+         /\ absent MED a0
+         /\ ((p_nh p = None -> is_flowspec (c_family c) = false) ->
+             (forall n, p_nh p = Some n -> src_is_local s = true -> ip_unspecified (nh_addr n) = true) ->
+             nh0 = Some (self_nexthop x))
+         /\ pol s a0 nh0 (p_nh p) = Some (a1, nh).
+Print Assumptions ebgp_any_policy.
+
+(* (6) To iBGP peers: LOCAL_PREF is present (the route's own if it has one), the
+   AS_PATH attribute and an explicit next hop are untouched. *)
+Theorem ibgp_rewrite :
+  forall x pol emax raddr cid c e d pid nh out s,
+    role_is_ibgp (x_role x) = true -> filter_only pol ->
+    (forall p, In p (c_paths c) -> decodable (p_attrs p)) ->
+    advertised x pol emax raddr cid c e d pid nh out s ->
+    exists p, In p (c_paths c) /\ s = p_src p
+      /\ (exists lp, find_code LOCAL_PREF out = Some lp
+                     /\ forall lp', find_code LOCAL_PREF (p_attrs p) = Some lp' -> lp = lp')
+      /\ find_code AS_PATH out = find_code AS_PATH (p_attrs p)
+      /\ (explicit_nexthop (src_is_local s) (p_nh p) -> nh = p_nh p).
+Proof. exact C09_ibgp_rewrite. Qed.
+Check ibgp_rewrite :
+  forall x pol emax raddr cid c e d pid nh out s,
+    role_is_ibgp (x_role x) = true -> filter_only pol ->
+    (forall p, In p (c_paths c) -> decodable (p_attrs p)) ->
+    advertised x pol emax raddr cid c e d pid nh out s ->
+    exists p, In p (c_paths c) /\ s = p_src p
+      /\ (exists lp, find_code LOCAL_PREF out = Some lp
+                     /\ forall lp', find_code LOCAL_PREF (p_attrs p) = Some lp' -> lp = lp')
+      /\ find_code AS_PATH out = find_code AS_PATH (p_attrs p)
+      /\ (explicit_nexthop (src_is_local s) (p_nh p) -> nh = p_nh p).
+Print Assumptions ibgp_rewrite.
+
+(* (6') LOCAL_PREF is ALWAYS present towards iBGP peers, whatever the policy does. *)
+Theorem ibgp_local_pref_any_policy :
+  forall x pol emax raddr cid c e d pid nh out s,
+    role_is_ibgp (x_role x) = true -> policy_keeps_decodable pol ->
+    (forall p, In p (c_paths c) -> decodable (p_attrs p)) ->
+    advertised x pol emax raddr cid c e d pid nh out s ->
+    has_code LOCAL_PREF out = true.
+Proof. exact C09_ibgp_local_pref_any_policy. Qed.
+Check ibgp_local_pref_any_policy :
+  forall x pol emax raddr cid c e d pid nh out s,
+    role_is_ibgp (x_role x) = true -> policy_keeps_decodable pol ->
+    (forall p, In p (c_paths c) -> decodable (p_attrs p)) ->
+    advertised x pol emax raddr cid c e d pid nh out s ->
+    has_code LOCAL_PREF out = true.
+Print Assumptions ibgp_local_pref_any_policy.
+
+(* (7) A route learned from an iBGP peer and sent to an iBGP peer (a reflected
+   route) carries ORIGINATOR_ID (the received one, else the router id of the peer
+   it came from) and the cluster id in front of the received CLUSTER_LIST. *)
+Theorem reflection_adds_originator_and_cluster :
+  forall x pol emax raddr cid c e d pid nh out s,
+    role_is_ibgp (x_role x) = true -> ibgp_peer_source s -> filter_only pol ->
+    (forall p, In p (c_paths c) -> decodable (p_attrs p)) ->
+    advertised x pol emax raddr cid c e d pid nh out s ->
+    exists p cl, In p (c_paths c) /\ s = p_src p /\ cid = Some cl
+      /\ reflected_ok (p_attrs p) out (src_rid s) cl.
+Proof. exact C09_reflection_adds_originator_and_cluster. Qed.
+Check reflection_adds_originator_and_cluster :
+  forall x pol emax raddr cid c e d pid nh out s,
+    role_is_ibgp (x_role x) = true -> ibgp_peer_source s -> filter_only pol ->
+    (forall p, In p (c_paths c) -> decodable (p_attrs p)) ->
+    advertised x pol emax raddr cid c e d pid nh out s ->
+    exists p cl, In p (c_paths c) /\ s = p_src p /\ cid = Some cl
+      /\ reflected_ok (p_attrs p) out (src_rid s) cl.
+Print Assumptions reflection_adds_originator_and_cluster.
+
+(* (8) Confed-eBGP peers get the member AS at the head of an AS_CONFED_SEQUENCE,
+   the rest of the path unchanged; LOCAL_PREF is retained. *)
+Theorem confed_rewrite :
+  forall x pol emax raddr cid c e d pid nh out s,
+    wf_ctx x -> x_role x = ConfedEbgp -> filter_only pol ->
+    (forall p, In p (c_paths c) -> decodable (p_attrs p)) ->
+    advertised x pol emax raddr cid c e d pid nh out s ->
+    exists p, In p (c_paths c) /\ s = p_src p
+      /\ (forall pin, path_of (p_attrs p) pin -> confed_path_ok x pin out)
+      /\ (forall lp, find_code LOCAL_PREF (p_attrs p) = Some lp -> find_code LOCAL_PREF out = Some lp).
+Proof. exact C09_confed_rewrite. Qed.
+Check confed_rewrite :
+  forall x pol emax raddr cid c e d pid nh out s,
+    wf_ctx x -> x_role x = ConfedEbgp -> filter_only pol ->
+    (forall p, In p (c_paths c) -> decodable (p_attrs p)) ->
+    advertised x pol emax raddr cid c e d pid nh out s ->
+    exists p, In p (c_paths c) /\ s = p_src p
+      /\ (forall pin, path_of (p_attrs p) pin -> confed_path_ok x pin out)
+      /\ (forall lp, find_code LOCAL_PREF (p_attrs p) = Some lp -> find_code LOCAL_PREF out = Some lp).
+Print Assumptions confed_rewrite.
+
+(* (9) Every advertisement of a route whose source is LLGR-stale carries LLGR_STALE
+   (both versions of the code, any role, any decodability-preserving policy). *)
+Theorem llgr_stale_marked :
+  forall fixed x pol emax raddr cid c e r d pid nh out s,
+    policy_keeps_decodable pol ->
+    (forall p, In p (c_paths c) -> decodable (p_attrs p)) ->
+    process_change_v fixed x pol emax raddr cid c e = Ok r -> In (Reach d pid nh out s) (fst r) ->
+    src_llgr s = true -> carries_llgr_stale out.
+Proof. exact C09_llgr_stale_marked. Qed.
+Check llgr_stale_marked :
+  forall fixed x pol emax raddr cid c e r d pid nh out s,
+    policy_keeps_decodable pol ->
+    (forall p, In p (c_paths c) -> decodable (p_attrs p)) ->
+    process_change_v fixed x pol emax raddr cid c e = Ok r -> In (Reach d pid nh out s) (fst r) ->
+    src_llgr s = true -> carries_llgr_stale out.
+Print Assumptions llgr_stale_marked.
+
+(* (9') ... and, after the repository fix, the copy a neighbour holds does not stay
+   unmarked: once Table::restale_llgr has reported the start of the LLGR period
+   of the route's source, whatever the neighbour holds for the route carries
+   LLGR_STALE (it was re-advertised, or withdrawn). *)
+Theorem llgr_stale_readvertised :
+  forall x pol emax raddr cid ps nh attrs ops1 ops2 e v,
+    policy_keeps_decodable pol -> decodable attrs ->
+    llgr_scenario x pol emax raddr cid ps nh attrs = Ok (ops1, ops2, e) ->
+    view_after (ops1 ++ ops2) 1 (if emax =? 1 then 0 else 1) None = Some v ->
+    carries_llgr_stale v.
+Proof. exact C09_llgr_stale_readvertised. Qed.
+Check llgr_stale_readvertised :
+  forall x pol emax raddr cid ps nh attrs ops1 ops2 e v,
+    policy_keeps_decodable pol -> decodable attrs ->
+    llgr_scenario x pol emax raddr cid ps nh attrs = Ok (ops1, ops2, e) ->
+    view_after (ops1 ++ ops2) 1 (if emax =? 1 then 0 else 1) None = Some v ->
+    carries_llgr_stale v.
+Print Assumptions llgr_stale_readvertised.
+
+(* (9'') The same statement about the code as found (fixed = false) is false:
+   finding C09-1, fixed by the repository commit named in known_findings.json. *)
+Theorem llgr_stale_readvertised_refuted :
+  ~ pre_fix_llgr_statement.
+Proof. exact C09_llgr_stale_readvertised_refuted. Qed.
+Check llgr_stale_readvertised_refuted :
+  ~ pre_fix_llgr_statement.
+Print Assumptions llgr_stale_readvertised_refuted.
+
+(* (10) Unknown transitive attributes of the route are forwarded with Partial set,
+   unknown non-transitive ones are dropped, nothing unknown is invented. *)
+Theorem unknown_attr_rule :
+  forall x pol emax raddr cid c e d pid nh out s,
+    filter_only pol ->
+    (forall p, In p (c_paths c) -> decodable (p_attrs p)) ->
+    advertised x pol emax raddr cid c e d pid nh out s ->
+    exists p, In p (c_paths c) /\ s = p_src p /\ unknown_rule_ok (p_attrs p) out.
+Proof. exact C09_unknown_attr_rule. Qed.
+Check unknown_attr_rule :
+  forall x pol emax raddr cid c e d pid nh out s,
+    filter_only pol ->
+    (forall p, In p (c_paths c) -> decodable (p_attrs p)) ->
+    advertised x pol emax raddr cid c e d pid nh out s ->
+    exists p, In p (c_paths c) /\ s = p_src p /\ unknown_rule_ok (p_attrs p) out.
+Print Assumptions unknown_attr_rule.
+
+(* (10') The rule holds of export_attrs itself, for every role and whatever attribute
+   vector the policy produced. *)
+Theorem unknown_attr_rule_any_policy :
+  forall x attrs out,
+    decodable attrs -> export_attrs x attrs = Ok out -> unknown_rule_ok attrs out.
+Proof. exact C09_unknown_attr_rule_any_policy. Qed.
+Check unknown_attr_rule_any_policy :
+  forall x attrs out,
+    decodable attrs -> export_attrs x attrs = Ok out -> unknown_rule_ok attrs out.
+Print Assumptions unknown_attr_rule_any_policy.
+
+(* AS_PATH edits (packet/src/bgp.rs).  as_path_prepend / as_path_prepend_confed on a
+   well-formed path: the AS is in front exactly once in a segment of the requested
+   type, everything else is unchanged, the result is well-formed (<= 255 per segment). *)
+Theorem as_path_prepend_spec :
+  forall ty asn p,
+    wf_path p -> 1 <= ty <= 4 -> asn < 4294967296 ->
+    exists asns rest,
+      path_prepend_b ty asn (encode_path p) = Ok (encode_path ((ty, asn :: asns) :: rest))
+      /\ wf_path ((ty, asn :: asns) :: rest)
+      /\ tflat ((ty, asn :: asns) :: rest) = (ty, asn) :: tflat p.
+Proof. exact prepend_spec. Qed.
+Check as_path_prepend_spec :
+  forall ty asn p,
+    wf_path p -> 1 <= ty <= 4 -> asn < 4294967296 ->
+    exists asns rest,
+      path_prepend_b ty asn (encode_path p) = Ok (encode_path ((ty, asn :: asns) :: rest))
+      /\ wf_path ((ty, asn :: asns) :: rest)
+      /\ tflat ((ty, asn :: asns) :: rest) = (ty, asn) :: tflat p.
+Print Assumptions as_path_prepend_spec.
+
+(* A head segment that already has 255 ASes is not extended: a new segment is created. *)
+Theorem as_path_full_segment_rule :
+  forall ty asn asns rest,
+    length asns = 255%nat ->
+    path_prepend_b ty asn (encode_path ((ty, asns) :: rest))
+    = Ok (encode_path ((ty, [asn]) :: (ty, asns) :: rest)).
+Proof. exact prepend_full_segment. Qed.
+Check as_path_full_segment_rule :
+  forall ty asn asns rest,
+    length asns = 255%nat ->
+    path_prepend_b ty asn (encode_path ((ty, asns) :: rest))
+    = Ok (encode_path ((ty, [asn]) :: (ty, asns) :: rest)).
+Print Assumptions as_path_full_segment_rule.
+
+(* as_path_strip_confed removes exactly the confederation segments and cannot panic
+   on a well-formed path. *)
+Theorem as_path_strip_confed_spec :
+  forall p, wf_path p ->
+    path_strip_confed_b (encode_path p) = Ok (encode_path (strip_confed_spec p)).
+Proof. exact strip_spec. Qed.
+Check as_path_strip_confed_spec :
+  forall p, wf_path p ->
+    path_strip_confed_b (encode_path p) = Ok (encode_path (strip_confed_spec p)).
+Print Assumptions as_path_strip_confed_spec.
+
+(* as_path_count is positive exactly when the AS occurs in the path (the test of is_as_loop). *)
+Theorem as_path_count_spec :
+  forall asn p, wf_path p ->
+    exists n, path_count_b asn (encode_path p) = Some n /\ (0 < n <-> In asn (flat p)).
+Proof. exact path_count_spec. Qed.
+Check as_path_count_spec :
+  forall asn p, wf_path p ->
+    exists n, path_count_b asn (encode_path p) = Some n /\ (0 < n <-> In asn (flat p)).
+Print Assumptions as_path_count_spec.
